@@ -170,6 +170,8 @@ struct World {
     /// Pascal on a flat PO image: the request for the concrete model (driver family `fsp`) describing the last
     /// operation, and — for queries — the answer the real code gave (None: a mutating operation, answer must be `ok`)
     pas_op: Option<(String, Option<String>)>,
+    /// DOS 3.x on a flat DO / D13 image: the same for the concrete DOS model (driver family `fsd`)
+    dos_op: Option<(String, Option<String>)>,
 }
 
 fn canon_path(fs: Fs, p: &str) -> String {
@@ -328,7 +330,7 @@ fn gen_nchunks(fs: Fs, rng: &mut Rng, free: usize, focus: Focus) -> usize {
     let r = rng.below(100);
     let n = if near_full && free > 0 { let d = rng.below(7); (free + 2).saturating_sub(d).max(1) }
         else if r < 45 { rng.range(1, 6) }
-        else if r < 75 { *rng.pick(boundary) }
+        else if r < 75 { let b = *rng.pick(boundary); if fs.is_dos() && rng.chance(40) { 122 * rng.range(1, 2) } else { b } }
         else { rng.range(1, (free / 3).max(2)) };
     n.max(1)
 }
@@ -354,7 +356,7 @@ fn gen_chunk(rng: &mut Rng, len: usize) -> Vec<u8> {
 // ------------------------------------------------------------------------------------------
 // operations
 
-enum Op { Put { path: String, nchunks: usize, holes: bool, last_len: usize, ftype_sel: usize }, Delete(String), Rename(String, String), Lock(String), Unlock(String), Retype(String, usize), Mkdir(String), PutDup(String), RenameOnto(String, String), GetMissing(String), DeleteMissing(String) }
+enum Op { Put { path: String, nchunks: usize, holes: bool, last_len: usize, ftype_sel: usize }, Delete(String), Rename(String, String), Lock(String), Unlock(String), Retype(String, usize), Mkdir(String), PutDup(String), RenameOnto(String, String), GetMissing(String), DeleteMissing(String), Protect(String), Unprotect(String) }
 
 struct Verdicts<'a> { out: &'a mut Out, focus: Focus, idx: usize, cfgid: String }
 impl<'a> Verdicts<'a> {
@@ -450,6 +452,31 @@ fn lean_params(w: &mut World) -> String {
     } else { String::from("-") }
 }
 
+/// everything that follows one executed operation: API oracles, mirror of the saved image into the driver,
+/// per-step refinement check, independent reading, and the byte-exact concrete-model ties
+fn post_step(w: &mut World, vd: &mut Verdicts, drv: &mut Option<&mut Drv>, tie: &mut LeanTie, use_lean: bool, use_pas: bool, use_dos: bool, desc: &str) {
+    let lean_op = w.lean_op.take().unwrap_or("other err".to_string());
+    check_bystanders(w, vd, desc);
+    check_listing(w, vd);
+    if use_lean {
+        if let Some(d) = drv.as_deref_mut() {
+            if let Some(e) = lean_sync(d, tie, w) { vd.out.count(&format!("lean-sync-error:{}", e)); }
+            else if !desc.starts_with("skip") && !desc.starts_with("ABORT") {
+                let summary = lean_step(d, w, vd, &lean_op, desc);
+                lean_check_answer(&summary, w, vd, desc);
+            } else { lean_check(d, w, vd, desc, None); }
+            if use_pas && !desc.starts_with("ABORT") {
+                if let Some((req, expect)) = w.pas_op.take() { pas_tie(d, w, vd, &req, expect, desc); }
+                pas_queries(d, w, vd, desc);
+            }
+            if use_dos && !desc.starts_with("ABORT") {
+                if let Some((req, expect)) = w.dos_op.take() { dos_tie(d, w, vd, &req, expect, desc); }
+                dos_queries(d, w, vd, desc);
+            }
+        }
+    }
+}
+
 fn one_history(ctx: &mut Ctx, focus: Focus, idx: usize, cfg: &VolCfg, steps: usize, rng: &mut Rng, mut drv: Option<&mut Drv>) {
     let cfgid = format!("{}/{}/{}", cfg.fs.id(), cfg.container, cfg.kind_name);
     ctx.out.count(&format!("cfg:{}", cfgid));
@@ -458,12 +485,14 @@ fn one_history(ctx: &mut Ctx, focus: Focus, idx: usize, cfg: &VolCfg, steps: usi
         Ok(Err(e)) => { ctx.out.count(&format!("mkvol-error:{}:{}", cfgid, e)); return; }
         Err(p) => { let mut vd = Verdicts { out: &mut ctx.out, focus, idx, cfgid: cfgid.clone() }; vd.panic(&p, "format", &[]); return; }
     };
-    let mut w = World { cfg: cfg.clone(), disk, files: BTreeMap::new(), dirs: BTreeSet::new(), chunk_len: 0, hist: Vec::new(), lean_op: None, pas_op: None };
+    let mut w = World { cfg: cfg.clone(), disk, files: BTreeMap::new(), dirs: BTreeSet::new(), chunk_len: 0, hist: Vec::new(), lean_op: None, pas_op: None, dos_op: None };
     w.chunk_len = match guarded(|| w.disk.new_fimg(None, false, if cfg.fs.is_cpm() || cfg.fs == Fs::Fat { "A.TXT" } else { "A" })) { Ok(Ok(f)) => f.chunk_len, _ => 512 };
     let mut tie = LeanTie { prev: Vec::new(), opened: false };
     let use_lean = drv.is_some() && (cfg.flat || cfg.fs.is_cpm()) && lean_supported(cfg.fs);
     // byte-exact tie of the concrete Pascal model (Lean `Model/Fs/Pascal.lean`): Pascal on a flat PO image only
     let use_pas = use_lean && cfg.fs == Fs::Pascal && cfg.flat && cfg.container == "po" && std::env::var("A2V_NO_FSP").is_err();
+    // byte-exact tie of the concrete DOS 3.x model (Lean `Model/Fs/Dos3x.lean`): DOS 3.3 on flat DO, DOS 3.2 on flat D13
+    let use_dos = use_lean && cfg.fs.is_dos() && cfg.flat && matches!(cfg.container, "do" | "d13") && std::env::var("A2V_NO_FSD").is_err();
     let mut canon: Vec<u8> = cfgid.as_bytes().to_vec();
     let mut nontrivial = false;
     let mut vd = Verdicts { out: &mut ctx.out, focus, idx, cfgid: cfgid.clone() };
@@ -473,7 +502,31 @@ fn one_history(ctx: &mut Ctx, focus: Focus, idx: usize, cfg: &VolCfg, steps: usi
             else {
                 lean_check(d, &mut w, &mut vd, "format", None);
                 if use_pas { pas_tie(d, &mut w, &mut vd, &format!("format {} {} {} ok", hxs("VERIF"), 0xee, hx(&pas_date())), None, "format"); }
+                if use_dos { dos_tie(d, &mut w, &mut vd, &format!("init {} 254 ok", if cfg.fs == Fs::Dos32 { 13 } else { 16 }), None, "format"); }
             }
+        }
+    }
+    // pre-soil: fill the free space once with non-zero data and delete it, so that free units hold stale bytes
+    // (a structure that is linked but never written then shows up as garbage instead of zeros)
+    if !slow_cfg(cfg) && rng.chance(45) {
+        if let Ok(free) = w.free() {
+            let overhead = match cfg.fs { Fs::Dos33 | Fs::Dos32 => 1 + free / 122, Fs::Prodos => if free > 256 { 2 + free / 256 } else { 1 }, Fs::Pascal => 0, _ => 0 };
+            let n = free.saturating_sub(overhead + 1).max(1);
+            let name = if cfg.fs.is_cpm() || cfg.fs == Fs::Fat { "SOIL.BIN" } else { "SOIL" };
+            let op = Op::Put { path: name.to_string(), nchunks: n, holes: false, last_len: w.chunk_len, ftype_sel: 1 };
+            w.lean_op = None; w.pas_op = None; w.dos_op = None;
+            let d1 = apply_op(&mut w, op, rng, free, &mut vd, &mut nontrivial);
+            canon.extend_from_slice(d1.as_bytes());
+            if !d1.starts_with("ABORT") { post_step(&mut w, &mut vd, &mut drv, &mut tie, use_lean, use_pas, use_dos, &d1); }
+            let cp = canon_path(cfg.fs, name);
+            if w.files.contains_key(&cp) {
+                let f2 = w.free().unwrap_or(0);
+                w.lean_op = None; w.pas_op = None; w.dos_op = None;
+                let d2 = apply_op(&mut w, Op::Delete(cp), rng, f2, &mut vd, &mut nontrivial);
+                canon.extend_from_slice(d2.as_bytes());
+                if !d2.starts_with("ABORT") { post_step(&mut w, &mut vd, &mut drv, &mut tie, use_lean, use_pas, use_dos, &d2); }
+            }
+            vd.out.count("pre-soil");
         }
     }
     // directory-pressure burst: many one-chunk files into one directory, sized to cross the directory's
@@ -514,58 +567,50 @@ fn one_history(ctx: &mut Ctx, focus: Focus, idx: usize, cfg: &VolCfg, steps: usi
         };
         w.lean_op = None;
         w.pas_op = None;
+        w.dos_op = None;
         let desc = apply_op(&mut w, op, rng, free, &mut vd, &mut nontrivial);
-        let lean_op = w.lean_op.take().unwrap_or("other err".to_string());
         canon.extend_from_slice(desc.as_bytes());
         if desc.starts_with("ABORT") { break; }
-        // after every step: bystanders (C02), listing (C05), soundness via Lean reader (C03, C04)
-        check_bystanders(&mut w, &mut vd, &desc);
-        check_listing(&mut w, &mut vd);
-        if use_lean {
-            if let Some(d) = drv.as_deref_mut() {
-                if let Some(e) = lean_sync(d, &mut tie, &mut w) { vd.out.count(&format!("lean-sync-error:{}", e)); }
-                else if !desc.starts_with("skip") && !desc.starts_with("ABORT") {
-                    let summary = lean_step(d, &mut w, &mut vd, &lean_op, &desc);
-                    lean_check_answer(&summary, &mut w, &mut vd, &desc);
-                } else { lean_check(d, &mut w, &mut vd, &desc, Some(step)); }
-                if use_pas && !desc.starts_with("ABORT") {
-                    if let Some((req, expect)) = w.pas_op.take() { pas_tie(d, &mut w, &mut vd, &req, expect, &desc); }
-                    pas_queries(d, &mut w, &mut vd, &desc);
-                }
-            }
-        }
+        post_step(&mut w, &mut vd, &mut drv, &mut tie, use_lean, use_pas, use_dos, &desc);
     }
     // pressure fill: use up the remaining free space so that any unit wrongly marked free (by an earlier,
-    // possibly refused, operation) is handed out again and the damage becomes visible in the files
+    // possibly refused, operation) is handed out again and the damage becomes visible in the files; then free
+    // some space in the middle of the volume and fill it again exactly (allocator wrap-around paths)
     if !slow_cfg(cfg) && rng.chance(50) {
-        for round in 0..7 {
+        let mut phase = 0; // 0 = first fill, 1 = refill after a delete
+        let mut rounds = 0;
+        loop {
+            rounds += 1;
+            if rounds > 12 { break; }
             let free = match w.free() { Ok(f) => f, Err(_) => break };
-            if free == 0 { break; }
-            let units_per_chunk = 1;
-            let overhead = match cfg.fs { Fs::Dos33 | Fs::Dos32 => 1 + free / 122, Fs::Prodos => if free > 256 { 2 + free / 256 } else if free > 1 { 1 } else { 0 }, _ => 0 };
-            let mut n = if round < 3 { (free / 2).max(1) } else { free.saturating_sub(overhead).max(1) } / units_per_chunk;
-            if n == 0 { n = 1; }
-            let path = gen_name(cfg.fs, rng, &BTreeSet::new());
-            let op = Op::Put { path, nchunks: n, holes: false, last_len: w.chunk_len, ftype_sel: rng.below(64) };
-            w.lean_op = None;
-            w.pas_op = None;
+            let op = if free == 0 || (phase == 0 && rounds > 6) {
+                if phase == 1 { break; }
+                phase = 1;
+                let names: Vec<String> = w.files.iter().filter(|(_, r)| !r.locked).map(|(k, _)| k.clone()).collect();
+                if names.is_empty() { break; }
+                Op::Delete(names[rng.below(names.len())].clone())
+            } else {
+                let overhead = match cfg.fs { Fs::Dos33 | Fs::Dos32 => 1 + free / 122, Fs::Prodos => if free > 256 { 2 + free / 256 } else if free > 1 { 1 } else { 0 }, _ => 0 };
+                let n = (if rounds % 3 == 1 && free > 8 { free / 2 } else { free.saturating_sub(overhead) }).max(1);
+                Op::Put { path: gen_name(cfg.fs, rng, &BTreeSet::new()), nchunks: n, holes: false, last_len: w.chunk_len, ftype_sel: rng.below(64) }
+            };
+            w.lean_op = None; w.pas_op = None; w.dos_op = None;
             let desc = apply_op(&mut w, op, rng, free, &mut vd, &mut nontrivial);
             canon.extend_from_slice(desc.as_bytes());
             if desc.starts_with("ABORT") { break; }
-            let lean_op = w.lean_op.take().unwrap_or("other err".to_string());
-            check_bystanders(&mut w, &mut vd, &desc);
-            check_listing(&mut w, &mut vd);
-            if use_lean {
-                if let Some(d) = drv.as_deref_mut() {
-                    if let Some(e) = lean_sync(d, &mut tie, &mut w) { vd.out.count(&format!("lean-sync-error:{}", e)); }
-                    else if !desc.starts_with("skip") { let summary = lean_step(d, &mut w, &mut vd, &lean_op, &desc); lean_check_answer(&summary, &mut w, &mut vd, &desc); }
-                    if use_pas {
-                        if let Some((req, expect)) = w.pas_op.take() { pas_tie(d, &mut w, &mut vd, &req, expect, &desc); }
-                        pas_queries(d, &mut w, &mut vd, &desc);
-                    }
-                }
+            post_step(&mut w, &mut vd, &mut drv, &mut tie, use_lean, use_pas, use_dos, &desc);
+            if desc.contains("=> err") && desc.starts_with("put") {
+                if phase == 1 { break; }
+                phase = 1;
+                let names: Vec<String> = w.files.iter().filter(|(_, r)| !r.locked).map(|(k, _)| k.clone()).collect();
+                if names.is_empty() { break; }
+                let f0 = w.free().unwrap_or(0);
+                w.lean_op = None; w.pas_op = None; w.dos_op = None;
+                let d = apply_op(&mut w, Op::Delete(names[rng.below(names.len())].clone()), rng, f0, &mut vd, &mut nontrivial);
+                canon.extend_from_slice(d.as_bytes());
+                if d.starts_with("ABORT") { break; }
+                post_step(&mut w, &mut vd, &mut drv, &mut tie, use_lean, use_pas, use_dos, &d);
             }
-            if desc.contains("=> err") && round >= 3 { break; }
         }
         vd.out.count("pressure-fill");
     }
@@ -593,14 +638,24 @@ fn choose_op(w: &mut World, rng: &mut Rng, free: usize, focus: Focus) -> Op {
     if !have || r < 38 {
         if fs.has_dirs() && rng.chance(if w.dirs.len() < 2 { 25 } else { 6 }) { return Op::Mkdir(gen_dirname(fs, rng, &w.dirs)); }
         let n = gen_nchunks(fs, rng, free, focus);
-        let path = gen_name(fs, rng, &w.dirs);
+        let mut path = gen_name(fs, rng, &w.dirs);
+        if fs.is_cpm() && have && rng.chance(30) {
+            // the same 8+3 name in another user area (entries of different users must never be confused)
+            let other = pick(rng);
+            let base = other.split(':').last().unwrap().to_string();
+            let u = rng.range(0, 15);
+            path = if u == 0 { base } else { format!("{}:{}", u, base) };
+        }
         let holes = fs.has_holes() && rng.chance(25) && n > 2;
         return Op::Put { path, nchunks: n, holes, last_len: if rng.chance(40) { w.chunk_len } else { rng.range(1, w.chunk_len.max(1)) }, ftype_sel: rng.below(64) };
     }
     if r < 52 { return Op::Delete(pick(rng)); }
     if r < 62 { let p = pick(rng); let base = gen_name(fs, rng, &BTreeSet::new()); return Op::Rename(p, base); }
     if r < 62 + lockw && fs.has_lock() { let p = pick(rng); return if w.files[&p].locked || rng.chance(30) { Op::Unlock(p) } else { Op::Lock(p) }; }
-    if r < 78 { return Op::Retype(pick(rng), rng.below(64)); }
+    if r < 78 {
+        if fs == Fs::Cpm3 { let p = pick(rng); return if rng.chance(55) { Op::Protect(p) } else { Op::Unprotect(p) }; }
+        return Op::Retype(pick(rng), rng.below(64));
+    }
     if r < 84 { return Op::PutDup(pick(rng)); }
     if r < 89 && existing.len() >= 2 { let a = pick(rng); let b = pick(rng); if a != b { return Op::RenameOnto(a, b); } }
     if r < 93 { return Op::GetMissing(gen_name(fs, rng, &w.dirs)); }
@@ -690,6 +745,11 @@ fn apply_op(w: &mut World, op: Op, rng: &mut Rng, free: usize, vd: &mut Verdicts
                     let pcs = r.chunks.iter().map(|(i, c)| if okp { format!("{}:{}", i, hx(c)) } else { format!("{}:-", i) }).collect::<Vec<_>>().join(",");
                     w.pas_op = Some((format!("put {} {} {} {} {} {}", hxs(&path), fimg.get_ftype(), fimg.get_eof(), hx(&pas_date()), pas_res(&res), pcs), None));
                 }
+                if fs.is_dos() {
+                    let okp = res_tok(&res) == "ok";
+                    let dcs = r.chunks.iter().map(|(i, c)| if okp { format!("{}:{}", i, hx(c)) } else { format!("{}:-", i) }).collect::<Vec<_>>().join(",");
+                    w.dos_op = Some((format!("put {} {} {} {}", hxs(&path), hx(&fimg.fs_type), dos_res(&res), dcs), None));
+                }
             }
             match res {
                 Err(p) => { vd.panic(&p, "put", &w.hist.clone()); return format!("ABORT {}", d); }
@@ -734,10 +794,12 @@ fn apply_op(w: &mut World, op: Op, rng: &mut Rng, free: usize, vd: &mut Verdicts
             let r = w.files[&cp].clone();
             let sp = spell(fs, &cp, rng);
             let mut pas_args = None;
-            let res = match build_fimg(w, &sp, 1, false, 7, 1, rng) { Ok((f, _)) => { pas_args = Some((f.get_ftype(), f.get_eof())); guarded(|| w.disk.put(&f).map_err(|e| e.to_string())) }, Err(e) => Ok(Err(e)) };
+            let mut dos_args = None;
+            let res = match build_fimg(w, &sp, 1, false, 7, 1, rng) { Ok((f, _)) => { pas_args = Some((f.get_ftype(), f.get_eof())); dos_args = Some(hx(&f.fs_type)); guarded(|| w.disk.put(&f).map_err(|e| e.to_string())) }, Err(e) => Ok(Err(e)) };
             let d = format!("put-dup {} => {}", sp, match &res { Ok(Ok(_)) => "ok".to_string(), Ok(Err(e)) => format!("err:{}", err_class(e)), Err(_) => "PANIC".to_string() });
             w.hist.push(d.clone());
             w.lean_op = Some(format!("put {} {} 0 0 0 -", hxs(&cp), res_tok(&res)));
+            if let (true, Some(ft)) = (fs.is_dos(), dos_args) { w.dos_op = Some((format!("put {} {} {} 0:-", hxs(&sp), ft, dos_res(&res)), None)); }
             if let (Fs::Pascal, Some((ft, eof))) = (fs, pas_args) { w.pas_op = Some((format!("put {} {} {} {} {} 0:-", hxs(&sp), ft, eof, hx(&pas_date()), pas_res(&res)), None)); }
             match res {
                 Err(p) => { vd.panic(&p, "put", &w.hist.clone()); return format!("ABORT {}", d); }
@@ -757,6 +819,7 @@ fn apply_op(w: &mut World, op: Op, rng: &mut Rng, free: usize, vd: &mut Verdicts
             w.hist.push(d.clone());
             w.lean_op = Some(format!("delete {} {}", hxs(&cp), res_tok(&res)));
             if fs == Fs::Pascal { w.pas_op = Some((format!("delete {} {}", hxs(&sp), pas_res(&res)), None)); }
+            if fs.is_dos() { w.dos_op = Some((format!("delete {} {}", hxs(&sp), dos_res(&res)), None)); }
             match res {
                 Err(p) => { vd.panic(&p, "delete", &w.hist.clone()); return format!("ABORT {}", d); }
                 Ok(Ok(_)) => {
@@ -786,6 +849,7 @@ fn apply_op(w: &mut World, op: Op, rng: &mut Rng, free: usize, vd: &mut Verdicts
             w.hist.push(d.clone());
             w.lean_op = Some(format!("rename {} {} {}", hxs(&cp), hxs(&target), res_tok(&res)));
             if fs == Fs::Pascal { w.pas_op = Some((format!("rename {} {} {}", hxs(&sp), hxs(&newbase_arg), pas_res(&res)), None)); }
+            if fs.is_dos() { w.dos_op = Some((format!("rename {} {} {}", hxs(&sp), hxs(&newbase_arg), dos_res(&res)), None)); }
             match res {
                 Err(p) => { vd.panic(&p, "rename", &w.hist.clone()); return format!("ABORT {}", d); }
                 Ok(Ok(_)) => {
@@ -810,6 +874,7 @@ fn apply_op(w: &mut World, op: Op, rng: &mut Rng, free: usize, vd: &mut Verdicts
                 let tgt = if fs.is_cpm() { canon_path(fs, &nb_arg) } else { match parent_of(&a) { Some(par) => format!("{}/{}", par, nb), None => nb.clone() } };
                 w.lean_op = Some(format!("rename {} {} {}", hxs(&a), hxs(&tgt), res_tok(&res)));
                 if fs == Fs::Pascal { w.pas_op = Some((format!("rename {} {} {}", hxs(&a), hxs(&nb_arg), pas_res(&res)), None)); }
+                if fs.is_dos() { w.dos_op = Some((format!("rename {} {} {}", hxs(&a), hxs(&nb_arg), dos_res(&res)), None)); }
             }
             match res {
                 Err(p) => { vd.panic(&p, "rename", &w.hist.clone()); return format!("ABORT {}", d); }
@@ -838,6 +903,7 @@ fn apply_op(w: &mut World, op: Op, rng: &mut Rng, free: usize, vd: &mut Verdicts
             let d = format!("retype {} {} {} => {}", cp, typ, sub, match &res { Ok(Ok(_)) => "ok".to_string(), Ok(Err(e)) => format!("err:{}", err_class(e)), Err(_) => "PANIC".to_string() });
             w.hist.push(d.clone());
             w.lean_op = Some(format!("retype {} {}", hxs(&cp), res_tok(&res)));
+            if fs.is_dos() { let code = match typ.as_str() { "txt" => "0", "itok" => "1", "atok" => "2", "bin" => "4", _ => "none" }; w.dos_op = Some((format!("retype {} {} {}", hxs(&cp), code, dos_res(&res)), None)); }
             if fs == Fs::Pascal { let code = match typ.as_str() { "txt" => "3", "bin" => "5", "pcode" => "2", _ => "none" }; w.pas_op = Some((format!("retype {} {} {}", hxs(&cp), code, pas_res(&res)), None)); }
             match res {
                 Err(p) => { vd.panic(&p, "retype", &w.hist.clone()); return format!("ABORT {}", d); }
@@ -849,6 +915,8 @@ fn apply_op(w: &mut World, op: Op, rng: &mut Rng, free: usize, vd: &mut Verdicts
             }
             d
         }
+        Op::Protect(cp) => protect_op(w, cp, true, vd, rng),
+        Op::Unprotect(cp) => protect_op(w, cp, false, vd, rng),
         Op::Mkdir(p) => {
             let cp = canon_path(fs, &p);
             let dup = w.files.contains_key(&cp) || w.dirs.contains(&cp);
@@ -870,6 +938,7 @@ fn apply_op(w: &mut World, op: Op, rng: &mut Rng, free: usize, vd: &mut Verdicts
             let d = format!("get-missing {} => {}", p, match &res { Ok(Ok(_)) => "ok", Ok(Err(_)) => "err", Err(_) => "PANIC" });
             w.hist.push(d.clone());
             if fs == Fs::Pascal { w.pas_op = Some((format!("get {}", hxs(&p)), Some(pas_get_answer(&res)))); }
+            if fs.is_dos() { w.dos_op = Some((format!("get {}", hxs(&p)), Some(dos_get_answer(&res)))); }
             match res { Err(pn) => vd.panic(&pn, "get", &w.hist.clone()), Ok(Ok(_)) => vd.v(Focus::C05, false, "unlisted-not-fetchable", &format!("{} fetched but never stored", cp), &w.hist.clone()), Ok(Err(_)) => vd.v(Focus::C05, true, "unlisted-not-fetchable", "", &[]) }
             d
         }
@@ -880,10 +949,24 @@ fn apply_op(w: &mut World, op: Op, rng: &mut Rng, free: usize, vd: &mut Verdicts
             let d = format!("delete-missing {} => {}", p, match &res { Ok(Ok(_)) => "ok", Ok(Err(_)) => "err", Err(_) => "PANIC" });
             w.hist.push(d.clone());
             if fs == Fs::Pascal { w.pas_op = Some((format!("delete {} {}", hxs(&p), pas_res(&res)), None)); }
+            if fs.is_dos() { w.dos_op = Some((format!("delete {} {}", hxs(&p), dos_res(&res)), None)); }
             match res { Err(pn) => vd.panic(&pn, "delete", &w.hist.clone()), Ok(Ok(_)) => vd.v(Focus::C05, false, "delete-missing-refused", &format!("delete of never-stored {} succeeded", cp), &w.hist.clone()), Ok(Err(_)) => vd.v(Focus::C05, true, "delete-missing-refused", "", &[]) }
             d
         }
     }
+}
+
+/// CP/M 3 password protection: only the frame is checked (the Lean reader sees the password entries of every
+/// file; the step is a `retype`-like operation of the spec: content kept, every other record unchanged)
+fn protect_op(w: &mut World, cp: String, protect: bool, vd: &mut Verdicts, rng: &mut Rng) -> String {
+    let sp = spell(w.fs(), &cp, rng);
+    let res = if protect { let (r, wr, d) = (rng.chance(50), rng.chance(50), true); guarded(|| w.disk.protect(&sp, "SECRET", r, wr, d).map_err(|e| e.to_string())) }
+        else { guarded(|| w.disk.unprotect(&sp).map_err(|e| e.to_string())) };
+    let d = format!("{} {} => {}", if protect { "protect" } else { "unprotect" }, sp, match &res { Ok(Ok(_)) => "ok".to_string(), Ok(Err(e)) => format!("err:{}", err_class(e)), Err(_) => "PANIC".to_string() });
+    w.hist.push(d.clone());
+    w.lean_op = Some(format!("retype {} {}", hxs(&cp), res_tok(&res)));
+    if let Err(p) = res { vd.panic(&p, "protect", &w.hist.clone()); return format!("ABORT {}", d); }
+    d
 }
 
 fn toggle_lock(w: &mut World, cp: String, vd: &mut Verdicts, rng: &mut Rng) -> String {
@@ -894,6 +977,7 @@ fn toggle_lock(w: &mut World, cp: String, vd: &mut Verdicts, rng: &mut Rng) -> S
     let d = format!("{} {} => {}", if was { "unlock" } else { "lock" }, sp, match &res { Ok(Ok(_)) => "ok".to_string(), Ok(Err(e)) => format!("err:{}", err_class(e)), Err(_) => "PANIC".to_string() });
     w.hist.push(d.clone());
     w.lean_op = Some(format!("{} {} {}", if was { "unlock" } else { "lock" }, hxs(&cp), res_tok(&res)));
+    if w.fs().is_dos() { w.dos_op = Some((format!("{} {} {}", if was { "unlock" } else { "lock" }, hxs(&sp), dos_res(&res)), None)); }
     match res {
         Err(p) => { vd.panic(&p, "lock", &w.hist.clone()); return format!("ABORT {}", d); }
         Ok(Ok(_)) => {
@@ -917,7 +1001,7 @@ fn check_bystanders(w: &mut World, vd: &mut Verdicts, desc: &str) {
     let toks: Vec<&str> = desc.split(" => ").next().unwrap_or("").split(' ').collect();
     let fs = w.fs();
     let mut targets: BTreeSet<String> = BTreeSet::new();
-    if desc.starts_with("put ") || desc.starts_with("put-dup ") || desc.starts_with("delete") || desc.starts_with("lock") || desc.starts_with("unlock") || desc.starts_with("retype") || desc.starts_with("mkdir") || desc.starts_with("get-missing") {
+    if desc.starts_with("put ") || desc.starts_with("put-dup ") || desc.starts_with("delete") || desc.starts_with("lock") || desc.starts_with("unlock") || desc.starts_with("retype") || desc.starts_with("mkdir") || desc.starts_with("get-missing") || desc.starts_with("protect") || desc.starts_with("unprotect") {
         // names may contain blanks (DOS): take everything between the verb and the first " chunks="/" => "
         let body = desc.splitn(2, ' ').nth(1).unwrap_or("");
         let name = body.split(" chunks=").next().unwrap_or(body).split(" => ").next().unwrap_or(body);
@@ -1054,6 +1138,7 @@ fn lean_step_verdict(ans: &str, w: &mut World, vd: &mut Verdicts, desc: &str) {
     if !ans.starts_with("bad ") { vd.out.count(&format!("lean-step-answer:{}", ans.chars().take(40).collect::<String>())); return; }
     let why = ans[4..].to_string();
     let owners: &[Focus] = match why.as_str() {
+        "bystanders-unchanged" if desc.starts_with("lock") || desc.starts_with("unlock") || desc.starts_with("retype") || desc.starts_with("protect") || desc.starts_with("unprotect") => &[Focus::C02, Focus::C19],
         "bystanders-unchanged" => &[Focus::C02],
         "refused-changes-nothing" => &[Focus::C02, Focus::C05],
         "put-content-reads-back" | "put-length-reads-back" | "put-type-reads-back" => &[Focus::C01],
@@ -1173,5 +1258,69 @@ fn pas_queries(drv: &mut Drv, w: &mut World, vd: &mut Verdicts, desc: &str) {
         let name = desc.splitn(2, ' ').nth(1).unwrap_or("").split(" chunks=").next().unwrap_or("").to_string();
         let res = w.get(&name);
         pas_tie(drv, w, vd, &format!("get {}", hxs(&name)), Some(pas_get_answer(&res)), desc);
+    }
+}
+
+// ------------------------------------------------------------------------------------------
+// byte-exact tie of the concrete DOS 3.x model (Lean `Model/Fs/Dos3x.lean`, driver family `fsd`)
+
+/// result class of a real DOS 3.x operation in the vocabulary of the model (`Err.token`)
+fn dos_err_tok(e: &str) -> String {
+    match e {
+        "RANGE ERROR" => "range", "END OF DATA" => "endofdata", "FILE NOT FOUND" => "filenotfound", "VOLUME MISMATCH" => "volumemismatch",
+        "I/O ERROR" => "ioerror", "DISK FULL" => "diskfull", "FILE LOCKED" => "filelocked", "FILE TYPE MISMATCH" => "filetypemismatch",
+        "WRITE PROTECTED" => "writeprotected", "SYNTAX ERROR" => "syntaxerror", _ => return format!("other({})", e.replace(' ', "_")),
+    }.to_string()
+}
+fn dos_res<T>(r: &Result<Result<T, String>, String>) -> String {
+    match r { Ok(Ok(_)) => "ok".to_string(), Ok(Err(e)) => format!("err:{}", dos_err_tok(e)), Err(_) => "err:panic".to_string() }
+}
+/// Adler-32 over (index low, index high, data…) of every chunk in index order
+fn dos_adler(chunks: &BTreeMap<usize, Vec<u8>>) -> u64 {
+    let (mut a, mut b) = (1u64, 0u64);
+    for (i, c) in chunks {
+        for x in [(*i % 256) as u8, (*i / 256 % 256) as u8].iter().chain(c.iter()) { a = (a + *x as u64) % 65521; b = (b + a) % 65521; }
+    }
+    b * 65536 + a
+}
+fn dos_get_answer(r: &Result<Result<FileImage, String>, String>) -> String {
+    match r {
+        Ok(Ok(g)) => { let cs: BTreeMap<usize, Vec<u8>> = g.chunks.iter().map(|(k, v)| (*k, v.clone())).collect(); format!("ok {} {} {}", g.fs_type.first().cloned().unwrap_or(0), cs.len(), dos_adler(&cs)) }
+        Ok(Err(e)) => format!("err:{}", dos_err_tok(e)),
+        Err(_) => "err:panic".to_string(),
+    }
+}
+fn dos_verdict(vd: &mut Verdicts, w: &World, pass: bool, kind: &str, detail: &str) {
+    let hist = w.hist.clone();
+    for f in [Focus::C01, Focus::C02, Focus::C03, Focus::C05] {
+        if pass { vd.v(f, true, "concrete-model", "", &[]); } else { vd.v(f, false, &format!("concrete-model:{}", kind), detail, &hist); }
+    }
+}
+/// send one operation to the concrete model; `expect` = the real answer of a query, None = a mutating operation
+/// (the driver compares result class and the whole flushed image with the mirror and answers `ok`)
+fn dos_tie(drv: &mut Drv, w: &mut World, vd: &mut Verdicts, req: &str, expect: Option<String>, desc: &str) {
+    let ans = drv.ask(&format!("fsd {}", req));
+    let want = expect.unwrap_or("ok".to_string());
+    if ans == want { dos_verdict(vd, w, true, "", ""); return; }
+    let kind = if ans.starts_with("bad result") { "result" } else if ans.starts_with("bad sector") || ans.starts_with("bad flush") { "image" } else { req.split(' ').next().unwrap_or("?") }.to_string();
+    let short: String = req.chars().take(160).collect();
+    dos_verdict(vd, w, false, &kind, &format!("concrete DOS model disagrees after [{}]: request [{}] model answered [{}] expected [{}]", desc, short, ans, want));
+}
+/// after every step: free count, catalog, and (after a successful put) the file as `get` returns it
+fn dos_queries(drv: &mut Drv, w: &mut World, vd: &mut Verdicts, desc: &str) {
+    if let Ok(f) = w.free() { dos_tie(drv, w, vd, "free", Some(format!("ok {}", f)), desc); }
+    if let Ok(Ok(rows)) = guarded(|| w.disk.catalog_to_vec("/").map_err(|e| e.to_string())) {
+        // `universal_row`: "{:4} {:5}  {}" = type, sectors, name (names may contain blanks)
+        let items: Vec<String> = rows.iter().map(|r| {
+            let typ = r.get(..4).unwrap_or("").trim().to_string();
+            let rest = r.get(5..).unwrap_or("").trim_start();
+            match rest.split_once("  ") { Some((n, name)) => format!("{}:{}:{}", hxs(name), n, typ), None => format!("?{}", r.replace(' ', "_")) }
+        }).collect();
+        dos_tie(drv, w, vd, "cat", Some(format!("ok {}", if items.is_empty() { "-".to_string() } else { items.join(",") })), desc);
+    }
+    if desc.starts_with("put ") && desc.ends_with("=> ok") {
+        let name = desc.splitn(2, ' ').nth(1).unwrap_or("").split(" chunks=").next().unwrap_or("").to_string();
+        let res = w.get(&name);
+        dos_tie(drv, w, vd, &format!("get {}", hxs(&name)), Some(dos_get_answer(&res)), desc);
     }
 }
